@@ -52,8 +52,12 @@ def cases(tier, seed):
         nz = rng.choice([2, 3, 5, 9, 50, 257])
         route = 'segy' if i % 4 else 'numpy'
         follow = rng.choice([None, None, 'crop', 'reblock', 'export', 'window'])
+        rate_ = 2 if follow == 'reblock' else rng.choice([4, 8, 1])
+        if route == 'segy' and i % 12 == 5 and (128 * dt) % 1000 == 0 and abs(t0 + 128 * dt // 1000) < 32000:
+            # a crop in the sample direction starting at a later sample block, then export: the exported axis starts where the crop starts
+            follow, nz, rate_ = 'crop-z-export', 300, 16
         out.append({'id': 'g:%d' % i, 'il': il[:3], 'xl': xl[:3], 'ilk': il[3], 'xlk': xl[3], 'dt': dt, 't0': t0, 'nz': nz, 'route': route,
-                    'follow': follow, 'fmt': rng.choice([1, 5]), 'rate': 2 if follow == 'reblock' else rng.choice([4, 8, 1]), 'cost': 1})
+                    'follow': follow, 'fmt': rng.choice([1, 5]), 'rate': rate_, 'cost': 1})
     # 2D lines: sample axis and trace count (no line axes)
     for j in range(n // 8):
         out.append({'id': '2d:%d' % j, 'route': 'segy2d', 'nT': rng.choice([2, 5, 16, 17, 40]), 'nz': rng.choice([2, 3, 5, 9, 50]), 'dt': INTERVALS[j % len(INTERVALS)],
@@ -245,6 +249,18 @@ def run_case(case, ctx):
                 conv.convert_segy(sgy, o2, case['rate'], (4, 4, -1), detection='thorough', window=(a, b, c, d), reduce_iops=rng.random() < 0.5)
                 with SgzReader(o2) as r:
                     compare('windowed', r.ilines, r.xlines, r.zslices, r.tracecount, r.structured, s_il[a:b], s_xl[c:d], s_z, (b - a) * (d - c), bad)
+        elif fol == 'crop-z-export' and case['route'] == 'segy':
+            with env.quiet():
+                with SgzCropper(out) as cr:
+                    cr.write_cropped_file_by_indexes(o2, None, None, (128, 256))
+            with SgzReader(o2) as r:
+                compare('after-z-crop', r.ilines, r.xlines, r.zslices, r.tracecount, r.structured, s_il, s_xl, s_z[128:256], s_n, bad)
+            e = sc.file('e.sgy')
+            with env.quiet():
+                with SgzConverter(o2) as cv:
+                    cv.convert_to_segy(e)
+            with segyio.open(e, strict=False) as f:
+                compare('after-z-crop-and-export', f.ilines, f.xlines, f.samples, f.tracecount, None, s_il, s_xl, s_z[128:256], s_n, bad)
         elif fol == 'export' and case['route'] == 'segy':
             e = sc.file('e.sgy')
             with env.quiet():
@@ -268,7 +284,7 @@ def run_case(case, ctx):
 def finalize(tier, cases, results, counters, strata):
     reasons = []
     need = ['dt:%d' % d for d in INTERVALS] + ['t0:%d' % t for t in T0S] + ['ilstep:%d' % s for s in STEPS] + \
-           ['ilstart:max', 'ilstart:min', 'xlstart:max', 'xlstart:min', 'ilstart:span', 'xlstart:span', 'route:segy', 'route:numpy', 'route:zgy', 'follow:crop', 'follow:reblock', 'follow:export', 'follow:window', 'interval-hdr:bin-zero', 'interval-hdr:bin-differs', 'interval-hdr:trace-zero', 'interval-hdr:trace-differs', 'numpy-axes:args', 'numpy-axes:headers', 'numpy-axes:both', 'numpy-axes:il-headers-only', 'numpy-axis-dtype:u:narrow', 'numpy-axis-dtype:i:narrow', 'numpy-axis-dtype:i:wide']
+           ['ilstart:max', 'ilstart:min', 'xlstart:max', 'xlstart:min', 'ilstart:span', 'xlstart:span', 'route:segy', 'route:numpy', 'route:zgy', 'follow:crop', 'follow:reblock', 'follow:export', 'follow:window', 'follow:crop-z-export', 'interval-hdr:bin-zero', 'interval-hdr:bin-differs', 'interval-hdr:trace-zero', 'interval-hdr:trace-differs', 'numpy-axes:args', 'numpy-axes:headers', 'numpy-axes:both', 'numpy-axes:il-headers-only', 'numpy-axis-dtype:u:narrow', 'numpy-axis-dtype:i:narrow', 'numpy-axis-dtype:i:wide']
     need += ['route:segy2d'] + ['2d-t0:%d' % t for t in T0S[:4]] + ['2d-how:' + h for h in ('nonumbers', 'single-inline', 'single-crossline')]
     need += ['zgy-dz:%s' % d for d in ZGY_DZ] + ['zgy-z0:%s' % z for z in ZGY_Z0[:3]]
     for s in need:
